@@ -10,6 +10,12 @@ package tracer
 // slice expression go out of range, and a frame is handed to the parser exactly when its
 // buffer holds its header plus exactly its declared payload.
 
+//@ frameset h2state: held, tracingHTTP2Conn.streams, tracingHTTP2Conn.maxStreamID, mapof(tracingHTTP2Conn.streams), http2Stream.*, dataTracer.*, builder.*, Trace.*,
+//@    http.Request.*, http.Response.*, map[string][]string, []string, []byte, bufContent, []Event, eventOffset.*, RequestBodyData.*, ResponseBodyData.*,
+//@    ResponseBodyEndStream.*, RequestBodyEnd.*, ResponseBodyEnd.*, ResponseStart.*, RequestStart.*, ghosts:cpl*, ghosts:ev*, ghosts:*Src, ghosts:hAdd*, trS,
+//@    http2RetryCollector.waiting, mapof(http2RetryCollector.waiting), http2RetryWaitState.*, url.URL.*, ghosts:rtm*
+
+
 //@ spec wfSplitter(h *http2FrameTracer) bool = h != nil && h.c != nil && h.decoder != nil &&
 //@    len(h.prefix) < 9 && len(h.prefaceBytes) <= 24 && 0 <= h.actual && h.actual <= 16777215 && 0 <= h.expecting && h.expecting <= 16777215 &&
 //@    (h.expecting == 0 ? (h.actual == 0 && len(bufContent[fieldaddr(h, frame)]) == 0) : (h.actual < h.expecting && len(h.prefix) == 0 && len(bufContent[fieldaddr(h, frame)]) == 9 + h.actual))
@@ -26,26 +32,22 @@ package tracer
 // emitFrame: parses the buffered frame and dispatches it; always leaves the buffer empty.
 //@ func (*http2FrameTracer).emitFrame
 //@   requires h != nil && h.c != nil && h.decoder != nil
-//@   modifies bufContent, rdPos, wrOut, http2FrameTracer.broken, http2.Framer.ReadMetaHeaders, ghosts:h2*, ghosts:cpl*, ghosts:ev*, held
-//@   ensures bufContent[fieldaddr(h, frame)] == "" && (!result ==> h.broken)
+//@   modifies @h2state, rdPos, wrOut, http2FrameTracer.broken, http2.Framer.ReadMetaHeaders
+//@   ensures bufContent[fieldaddr(h, frame)] == "" && (!result ==> h.broken) && (result ==> h.broken == old(h.broken))
 
 // ---- stream table (tracingHTTP2Conn), everything under c.mu ----
-
-//@ frameset h2state: held, tracingHTTP2Conn.streams, tracingHTTP2Conn.maxStreamID, mapof(tracingHTTP2Conn.streams), http2Stream.*, dataTracer.*, builder.*, Trace.*,
-//@    http.Request.*, http.Response.*, map[string][]string, []string, []byte, bufContent, Envelope.*, []Event, eventOffset.*, RequestBodyData.*, ResponseBodyData.*,
-//@    ResponseBodyEndStream.*, RequestBodyEnd.*, ResponseBodyEnd.*, ResponseStart.*, RequestStart.*, ghosts:cpl*, ghosts:ev*, ghosts:*Src, ghosts:hAdd*, trS,
-//@    http2RetryCollector.waiting, mapof(http2RetryCollector.waiting), http2RetryWaitState.*, url.URL.*, ghosts:rtm*
 
 //@ guarded tracingHTTP2Conn: streams, maxStreamID by mu
 
 // a stream has a builder and a request tracer bound to it; its response tracer gets the
 // builder when the response headers arrive (gotResponse); until then it is idle or only counts
-//@ spec wfStream(s *http2Stream) bool = s != nil && s.builder != nil &&
+//@ spec wfStream(s *http2Stream) bool = s != nil && s.builder != nil && s.gotResponse == (fieldaddr(s, responseTracer).builder != nil) &&
 //@    wfTracer(fieldaddr(s, requestTracer)) && fieldaddr(s, requestTracer).builder == s.builder && !held[fieldaddr(s, requestTracer).mu] && !held[fieldaddr(s, responseTracer).mu] &&
 //@    (fieldaddr(s, responseTracer).builder != nil ?
 //@        (wfTracer(fieldaddr(s, responseTracer)) && fieldaddr(s, responseTracer).builder == s.builder) :
 //@        (!fieldaddr(s, responseTracer).isStreamProtocol && len(fieldaddr(s, responseTracer).prefix) == 0 && fieldaddr(s, responseTracer).expecting == 0 &&
 //@         fieldaddr(s, responseTracer).env == nil && fieldaddr(s, responseTracer).endStream == nil))
+//@ macro
 //@ monitor tracingHTTP2Conn by mu: self.collector != nil && forall id int :: has(self.streams, id) ==> wfStream(self.streams[id])
 
 //@ func makeHeaders
@@ -81,7 +83,8 @@ package tracer
 // rtmStopN counts calls of the stop functions of pending waits (timers)
 //@ ghost rtmStopN: int -> int
 //@ guarded http2RetryCollector: waiting by mu
-//@ mapvalues map[string]*http2RetryWaitState: v != nil && v.stop != nil
+//@ mapvalues map[string]*http2RetryWaitState: v != nil && v.stop != nil && v.trace.Request != nil
+//@ elemvalues []*http2RetryWaitState: v != nil && v.stop != nil && v.trace.Request != nil
 //@ func http2RetryWaitState.stop
 //@   modifies rtmStopN
 //@   ensures rtmStopN[0] == old(rtmStopN[0]) + 1
@@ -95,8 +98,10 @@ package tracer
 // stream's builder
 //@ func (*tracingHTTP2Conn).receiveResponseLocked
 //@   requires c != nil && held[c.mu] && wfStream(stream) && frame != nil && fieldaddr(stream, responseTracer).builder == nil && fieldaddr(stream, responseTracer).actual == 0
+//@   requires forall id int :: has(c.streams, id) ==> wfStream(c.streams[id])
 //@   modifies @h2state
 //@   ensures wfStream(stream) && stream.gotResponse && fieldaddr(stream, responseTracer).builder == stream.builder && held[c.mu]
+//@   ensures forall id int :: has(c.streams, id) ==> wfStream(c.streams[id])
 //@   ensures c.streams == old(c.streams) && forall id int :: has(c.streams, id) == old(has(c.streams, id)) && c.streams[id] == old(c.streams[id])
 
 // a new stream is registered under the frame's id with a fresh builder and request tracer
@@ -139,8 +144,134 @@ package tracer
 // connection failure / close: every stream is dropped with its final events; the table is empty
 //@ func (*tracingHTTP2Conn).cancelAll$1
 //@   option rangedelete
-//@   requires c != nil && !held[c.mu]
+//@   requires c != nil
 //@   modifies @h2state
 //@   ensures !held[c.mu] && forall id int :: !has(c.streams, id)
 //@   loop 0: invariant held[c.mu] && c.streams == atlock(c.streams)
 //@           invariant forall id int :: has(c.streams, id) ==> wfStream(c.streams[id]) && rangeidx(id) >= rangepos
+
+// handleFrame: dispatches one parsed frame under c.mu. It never crashes, whatever the frame
+// is (unknown streams are ignored; trailers are only recorded on a trace that still has its
+// request / response), and it re-establishes the stream-table invariant.
+//@ func (*builder).setRequestTrailers
+//@   requires b != nil
+//@   modifies held @ b.mu, http.Request.Trailer
+//@   ensures !held[b.mu]
+//@ func (*builder).setResponseTrailers
+//@   requires b != nil
+//@   modifies held @ b.mu, http.Response.Trailer
+//@   ensures !held[b.mu]
+
+//@ func (*tracingHTTP2Conn).handleFrame
+//@   requires c != nil && wfH2Frame(frame)
+//@   requires forall d *dataTracer :: slicebase(d.prefix) == 0 || slicebase(d.prefix) != h2DataBase(frame) //# a frame's payload buffer is the Framer's, never a tracer's private prefix buffer
+//@   modifies @h2state
+//@   ensures !held[c.mu]
+//@   //# assumption about peers: no response DATA precedes the response HEADERS of its stream (the byte counter of an
+//@   //# unbound response tracer would otherwise be carried into the envelope accounting; it cannot crash, see DESIGN 11)
+//@   assert_at "stream.builder.setRequestTrailers(makeHeaders(frame))": wfStream(stream) && forall id int :: has(c.streams, id) ==> wfStream(c.streams[id])
+//@   assert_at "stream.builder.setResponseTrailers(makeHeaders(frame))": wfStream(stream) && forall id int :: has(c.streams, id) ==> wfStream(c.streams[id])
+//@   assume_at "c.receiveResponseLocked(stream, frame)": fieldaddr(stream, responseTracer).actual == 0
+
+// ---- frame splitter ----
+//@ func (*http2FrameTracer).traceHeaderLocked
+//@   requires wfSplitter(h) && !h.broken && h.expecting == 0 && len(data) > 0 && slicebase(data) != slicebase(h.prefix)
+//@   modifies @h2state, rdPos, wrOut, http2FrameTracer.*, http2.Framer.ReadMetaHeaders
+//@   ensures @consumed result_1 ==> 0 < result_0 && result_0 <= len(data) && result_0 == 9 - old(len(h.prefix)) && !h.broken
+//@   ensures @buffers (slicebase(h.prefix) == old(slicebase(h.prefix)) || fresh(h.prefix)) && h.prefaceBytes == old(h.prefaceBytes)
+//@   ensures @partial !result_1 && !h.broken ==> len(data) < 9 - old(len(h.prefix)) && len(h.prefix) == old(len(h.prefix)) + len(data) && h.expecting == 0
+//@   ensures @wf !h.broken ==> wfSplitter(h)
+
+//@ func (*http2FrameTracer).traceFrameLocked
+//@   requires wfSplitter(h) && !h.broken && h.expecting > 0 && len(data) > 0
+//@   modifies @h2state, rdPos, wrOut, http2FrameTracer.*, http2.Framer.ReadMetaHeaders
+//@   ensures @consumed result_1 ==> 0 < result_0 && result_0 <= len(data) && result_0 == old(h.expecting) - old(h.actual) && !h.broken
+//@   ensures @buffers h.prefix == old(h.prefix) && h.prefaceBytes == old(h.prefaceBytes)
+//@   ensures @partial !result_1 && !h.broken ==> len(data) < old(h.expecting) - old(h.actual) && h.actual == old(h.actual) + len(data) && h.expecting == old(h.expecting)
+//@   ensures @wf !h.broken ==> wfSplitter(h)
+
+// trace: whatever bytes arrive in whatever chunks, the splitter keeps its invariant or marks
+// itself broken (after which it ignores everything); it never reads or slices out of range and
+// never alters the bytes it is shown.
+//@ func (*http2FrameTracer).trace
+//@   requires h != nil && (h.broken || wfSplitter(h)) && (len(data) > 0 ==> slicebase(data) != slicebase(h.prefix) && slicebase(data) != slicebase(h.prefaceBytes))
+//@   modifies @h2state, rdPos, wrOut, http2FrameTracer.*, http2.Framer.ReadMetaHeaders
+//@   ensures h.broken || wfSplitter(h)
+//@   loop 0: invariant !h.broken && wfSplitter(h) && (len(data) > 0 ==> slicebase(data) != slicebase(h.prefix) && slicebase(data) != slicebase(h.prefaceBytes))
+
+// ---- the connection wrapper: the caller gets exactly what the wrapped connection returned ----
+//@ spec wfH2Conn(c *tracingHTTP2Conn) bool = c != nil && c.Conn != nil && c.collector != nil && c.collector.collector != nil &&
+//@    (fieldaddr(c, readTracer).broken || wfSplitter(fieldaddr(c, readTracer))) && (fieldaddr(c, writeTracer).broken || wfSplitter(fieldaddr(c, writeTracer))) &&
+//@    fieldaddr(c, readTracer).c == c && fieldaddr(c, writeTracer).c == c
+
+//@ frameset h2cancel: @h2state, rtmStopN, []*http2RetryWaitState, *[]*http2RetryWaitState
+//@ frameset h2conn: @h2cancel, rdPos, wrOut, http2FrameTracer.*, http2.Framer.ReadMetaHeaders, connN, connErr
+
+//@ func (*http2RetryCollector).cancel
+//@   requires h != nil && h.collector != nil
+//@   modifies @h2cancel
+//@   ensures !held[h.mu]
+
+//@ func (*tracingHTTP2Conn).cancelAll
+//@   requires c != nil && c.collector != nil && c.collector.collector != nil
+//@   modifies @h2cancel
+
+//@ func (*tracingHTTP2Conn).Read
+//@   requires wfH2Conn(c) && !held[c.mu] && slicebase(data) != slicebase(fieldaddr(c, readTracer).prefix) && slicebase(data) != slicebase(fieldaddr(c, readTracer).prefaceBytes)
+//@   modifies @h2conn
+//@   ensures @passthrough n == connN[c.Conn] && err == connErr[c.Conn]
+//@ func (*tracingHTTP2Conn).Write
+//@   requires wfH2Conn(c) && !held[c.mu] && slicebase(data) != slicebase(fieldaddr(c, writeTracer).prefix) && slicebase(data) != slicebase(fieldaddr(c, writeTracer).prefaceBytes)
+//@   modifies @h2conn
+//@   ensures @passthrough n == connN[c.Conn] && err == connErr[c.Conn]
+//@ func (*tracingHTTP2Conn).Close
+//@   requires wfH2Conn(c) && !held[c.mu]
+//@   modifies @h2conn
+//@   ensures @passthrough result == connErr[c.Conn]
+
+// ---- retry collector ----
+// a refused (retryable) attempt is parked under its test name; a new attempt of that name
+// discards it; otherwise it is delivered when its timer fires or the connection ends.
+// A trace that is not retryable is delivered at once, unless an attempt of that name is parked.
+//@ ufunc isRetryableSpec(err error) bool
+//@ func isRetryable
+//@   pure
+//@   ensures err == nil ==> !result
+//@   assume_ensures result == isRetryableSpec(err) //# names the result (a fixed function of the error)
+
+//@ func (*http2RetryCollector).cancel$1
+//@   requires h != nil
+//@   modifies held @ h.mu, http2RetryCollector.waiting, *[]*http2RetryWaitState, []*http2RetryWaitState
+//@   ensures !held[h.mu] && h.waiting == nil
+
+//@ func (*http2RetryCollector).Complete$1
+//@   requires h != nil && h.collector != nil
+//@   modifies @h2cancel
+//@ func (*http2RetryCollector).Complete$2
+//@   requires timer != nil
+//@   modifies nothing
+
+// Complete: a retryable trace is parked (nothing is delivered now); any other trace is
+// delivered exactly once unless an attempt of the same name is parked
+//@ func (*http2RetryCollector).Complete
+//@   requires h != nil && h.collector != nil && trace.Request != nil
+//@   modifies @h2cancel
+//@   ensures !held[h.mu]
+//@   ensures @parked isRetryableSpec(trace.Err) ==> cplN == old(cplN) && has(h.waiting, trace.TestName) && h.waiting[trace.TestName].trace.TestName == trace.TestName && h.waiting[trace.TestName].trace.Events == trace.Events
+//@   ensures @delivered !isRetryableSpec(trace.Err) && !atlock(has(h.waiting, trace.TestName)) ==> cplN[h.collector] == old(cplN[h.collector]) + 1 && cplName[h.collector] == trace.TestName && cplEvents[h.collector] == trace.Events
+//@   ensures @shadowed !isRetryableSpec(trace.Err) && atlock(has(h.waiting, trace.TestName)) ==> cplN == old(cplN)
+
+// timesUp: delivers the parked trace of that name, once, and forgets it; nothing if a retry
+// already replaced it
+//@ func (*http2RetryCollector).timesUp
+//@   requires h != nil && h.collector != nil
+//@   modifies @h2cancel
+//@   ensures !has(h.waiting, testName)
+//@   ensures @delivered atlock(has(h.waiting, testName)) ==> cplN[h.collector] == old(cplN[h.collector]) + 1 && cplName[h.collector] == atlock(h.waiting[testName].trace.TestName)
+//@   ensures @nothing !atlock(has(h.waiting, testName)) ==> cplN == old(cplN)
+
+// the constructor establishes the wrapper's invariant (both splitters idle, bound to the wrapper)
+//@ func TracingHTTP2Conn
+//@   requires conn != nil && collector != nil
+//@   modifies nothing
+//@   ensures typeis(result, *tracingHTTP2Conn) && wfH2Conn(unbox(result, *tracingHTTP2Conn)) && fresh(unbox(result, *tracingHTTP2Conn)) && unbox(result, *tracingHTTP2Conn).Conn == conn
